@@ -2249,11 +2249,18 @@ export class ObjectRuntype extends BaseRuntype {
           }
         }
       }
+      // validate() reads declared properties with input[k], own or inherited (class instances, accessors):
+      // the ones that are not enumerable own keys of the input follow those
+      for (const k of Object.keys(this.properties)) {
+        if (!hasOwn.call(acc, k) && k in input) {
+          acc[k] = this.properties[k].parseAfterValidation(ctx, input[k]);
+        }
+      }
     } else {
       const configKeys = Object.keys(this.properties).sort();
 
       for (const k of configKeys) {
-        if (!hasOwn.call(input, k)) {
+        if (!(k in input)) {
           continue;
         }
         const v = input[k];
